@@ -62,8 +62,17 @@ PROGRAMS["missing-then-failing-bound"] = {"test_something.py": H + "def test_a()
                                           "def test_c():\n    assert 7 >= snapshot(9)\n    assert snapshot({'a': 1, 'b': 2})['a'] == 1\n"}
 PROGRAMS["missing-then-failing-eq"] = {"test_something.py": H + "def test_a():\n    s = snapshot()\n    assert s['k'] == 1\n\n\ndef test_b():\n    assert 5 == snapshot(3)\n    assert 2 in snapshot([1, 2])\n\n\n"
                                        "def test_c():\n    assert 6 in snapshot([5])\n    assert 4 <= snapshot(9)\n"}
+# classes nested in a module-level class of the test file: as constructor, as type value, as Enum member, as HasRepr argument
+# (the in-process helper executes the file with other module globals than a session: names derived from the class must not differ)
+NESTED = ("import enum\nfrom dataclasses import dataclass\n\n\nclass Config:\n    @dataclass\n    class Limits:\n        low: int\n        high: int = 9\n\n"
+          "    class Mode(enum.Enum):\n        FAST = 1\n\n    class Raw:\n        def __repr__(self):\n            return '<raw>'\n\n"
+          "        def __eq__(self, o):\n            return type(o).__name__ == 'Raw' or NotImplemented\n\n\n")
+PROGRAMS["nested-classes-create"] = {"test_something.py": NESTED + H + "def test_a():\n    assert Config.Limits(low=1) == snapshot()\n    assert [int, Config.Limits, Config] == snapshot()\n"
+                                     "    assert Config.Mode.FAST == snapshot()\n    assert Config.Raw() == snapshot()\n"}
+PROGRAMS["nested-classes-fix"] = {"test_something.py": NESTED + H + "def test_a():\n    assert Config.Limits(low=1) == snapshot(Config.Limits(low=2, high=9))\n    assert {'t': Config.Limits} == snapshot({'t': int})\n"
+                                  "    assert [Config.Mode.FAST] == snapshot([1])\n    assert Config.Limits(low=3) == snapshot({'x': 1})\n"}
 NEEDS_XDIST = {"dist-option-without-workers", "dist-option-n0"}
-QUICK = ["missing-then-failing-bound", "missing-then-failing-eq", "dist-option-without-workers", "dist-option-n0", "defaults-in-pyproject", "two-files-later-category-only-first", "replace-all-members", "four-sites", "list-mixed", "sub-mixed", "hasrepr", "failing", "two-files", "in-mixed", "strings", "dataclass", "clean-file", "nested-snapshot", "never-compared"]
+QUICK = ["nested-classes-create", "nested-classes-fix", "missing-then-failing-bound", "missing-then-failing-eq", "dist-option-without-workers", "dist-option-n0", "defaults-in-pyproject", "two-files-later-category-only-first", "replace-all-members", "four-sites", "list-mixed", "sub-mixed", "hasrepr", "failing", "two-files", "in-mixed", "strings", "dataclass", "clean-file", "nested-snapshot", "never-compared"]
 
 
 GEN_BATCH = 12
